@@ -33,8 +33,10 @@ LABEL = ('partial: user handler code is represented by the program alphabet {rec
 TRUSTED = ['modelled, not verified: hyper-h2 stream life-cycle (open / half-closed / closed; a refused send on a '
            'half-closed(local) stream closes it), asyncio task cancellation at suspension points, '
            'Wrapper/DeadlineWrapper error replacement, Buffer.read on the buffered request body',
-           'tools/facts_C03.py (fail-closed ast translator: abort table with guards, __aexit__ statuses, '
-           'TimeoutError clause, precondition checks, header literals)',
+           'tools/facts_C03.py + tools/facts_C03Probes.py (fail-closed translators BY BEHAVIOUR: decision tables read '
+           'off the wire of the real server on fixed probe requests / probe handlers -- refusal table with precedence, '
+           'exit statuses, deadline statuses, ~580 golden probe programs the Coq model must reproduce; no source '
+           'syntax is read)',
            'Model.Metadata.decode_metadata / Model.Base64 (C13) for the malformed-metadata check']
 ASSUMPTIONS = ['the flow-control windows are open; the transport is writable until the program pauses it (Pause), after '
                'which every sending call waits for write_ready; cancellation reaches the handler only in Sleep, in a Recv '
